@@ -61,6 +61,34 @@ theorem cue_perm (α : ι → R) (β₁ β₂ lam : R) (W : κ → ι → R) (pr
   simp only [rwStep]
   exact rwRow_perm α β₁ β₂ lam _ h _
 
+/-- **the order of cues and of outcomes inside any event is irrelevant** (also with repeats: the
+    permuted event has the same cues and the same outcomes as multisets) — the relation the
+    correspondence run's `cue_shuffle` law checks between two real runs. -/
+theorem event_perm (α : ι → R) (β₁ β₂ lam : R) (W : κ → ι → R) (pre post : List (Event ι κ))
+    (cs cs' : List ι) (os os' : List κ) (h : cs ~ cs') (ho : os ~ os') :
+    rwLearn α β₁ β₂ lam W (pre ++ ⟨cs, os⟩ :: post) = rwLearn α β₁ β₂ lam W (pre ++ ⟨cs', os'⟩ :: post) := by
+  simp only [rwLearn_append, rwLearn_cons]
+  congr 1
+  funext o
+  simp only [rwStep]
+  have hm : decide (o ∈ os) = decide (o ∈ os') := by
+    simp only [ho.mem_iff]
+  rw [hm]
+  exact rwRow_perm α β₁ β₂ lam _ h _
+
+/-- every event permuted at once (cues by `cs ~ cs'`, outcomes by `os ~ os'`, event by event) -/
+theorem events_perm (α : ι → R) (β₁ β₂ lam : R) (es es' : List (Event ι κ))
+    (h : List.Forall₂ (fun e e' => e.cues ~ e'.cues ∧ e.outcomes ~ e'.outcomes) es es') (W : κ → ι → R) :
+    rwLearn α β₁ β₂ lam W es = rwLearn α β₁ β₂ lam W es' := by
+  induction h generalizing W with
+  | nil => rfl
+  | @cons e e' es es' he _ ih =>
+    rw [rwLearn_cons, rwLearn_cons, ← ih]
+    congr 1
+    obtain ⟨cs, os⟩ := e
+    obtain ⟨cs', os'⟩ := e'
+    exact event_perm α β₁ β₂ lam W [] [] cs cs' os os' he.1 he.2
+
 /-- **affine in the initial weights** -/
 theorem affine (α : ι → R) (β₁ β₂ lam : R) (W V : κ → ι → R) (es : List (Event ι κ)) (o : κ) (c : ι) :
     rwLearn α β₁ β₂ lam (fun o c => W o c + V o c) es o c
@@ -308,5 +336,13 @@ example :
     rwLearn α 2 3 5 W [⟨[0, 1], [10]⟩, ⟨[1, 1], [11]⟩] 10 1 = 7 ∧
     rwLearn α 2 3 5 W [⟨[0, 1], [10]⟩, ⟨[1, 1], [11]⟩] 10 0 ≠ 0 := by
   decide +kernel
+
+/-! non-vacuity of `event_perm`: a repeated cue and two outcomes, both permuted; the weights are not zero -/
+example :
+    ([0, 1, 0] : List Nat) ~ [1, 0, 0] ∧ ([10, 11] : List Nat) ~ [11, 10] ∧
+    rwLearn (fun _ => (1:ℤ)) 2 3 5 (fun _ _ => 0) ([⟨[1], [10]⟩] ++ ⟨[0, 1, 0], [10, 11]⟩ :: [⟨[0], [12]⟩]) 11 0
+      = rwLearn (fun _ => (1:ℤ)) 2 3 5 (fun _ _ => 0) ([⟨[1], [10]⟩] ++ ⟨[1, 0, 0], [11, 10]⟩ :: [⟨[0], [12]⟩]) 11 0
+    ∧ rwLearn (fun _ => (1:ℤ)) 2 3 5 (fun _ _ => 0) ([⟨[1], [10]⟩] ++ ⟨[0, 1, 0], [10, 11]⟩ :: [⟨[0], [12]⟩]) 11 0 ≠ 0 := by
+  refine ⟨by decide, by decide, by decide +kernel, by decide +kernel⟩
 
 end Pyndl.C13
